@@ -104,7 +104,7 @@ impl Module for M {
                 emit(format!("circle.points {} {} {}", x, y, d));
             }
         }
-        if pid == "C06" {
+        if pid == "C06" || pid == "C01" {
             let cols: [(&str, &str); 4] = [("7", "-"), ("-", "9"), ("7", "9"), ("-", "-")];
             let boxes: [(i32, i32, u32, u32); 3] = [UNB, (2, 1, 7, 6), (0, 0, 0, 0)];
             let dmax: u32 = 14;
